@@ -1,393 +1,584 @@
 /-
-Proof that transforming a program of the iteration fragment equals transforming its hand-unrolled
-form (`Rooc/Pre/Program.lean`).
+Round trip of whole programs of the fragment (no iterations, simple names): the tokens the program printer
+writes (`progToks`) are read back by the program-level parser model (`parseProgram`) as the same `PModel`.
 -/
-import Rooc.Pre.Program
-import Rooc.Proofs.Iter
-namespace Rooc.Proofs.Program
-set_option linter.unusedSimpArgs false
-set_option linter.unusedSectionVars false
-open Rooc Rooc.Pre Rooc.Proofs.Iter
+import Rooc.Proofs.Format
+import Rooc.Syntax.Program
+import Rooc.Syntax.ProgramToks
+namespace Rooc.Syntax.Proofs
+open Rooc Rooc.Syntax Rooc.Syntax.Doc
 
-/-! ### generic plumbing -/
+/-- tokens an expression is written with (no NEWLINE, `:`, comparison, `s.t.`) -/
+def isExprTok : Tok → Bool
+  | .nl | .colon | .le | .ge | .eq | .lt | .gt | .st => false
+  | _ => true
 
-theorem mapE_singleton_flatten {β γ : Type} (f : β → Except IErr γ) (l : List β) :
-    O (mapE (fun y => (f y).map (fun z => [z])) l) = (O (mapE f l)).map (fun zs => zs.map (fun z => [z])) := by
-  induction l with
-  | nil => rfl
-  | cons a l ih =>
-    rw [O_mapE_cons, O_mapE_cons, ih, O_map]
-    cases f a <;> simp
-    cases mapE f l <;> simp
+theorem binKwTok_expr (o : BinOp) : isExprTok (binKwTok o) = true := by cases o <;> rfl
+theorem unKwTok_expr (u : UnOp) : isExprTok (unKwTok u) = true := by cases u <;> rfl
 
-theorem flatten_map_singleton {γ : Type} (zs : List γ) : (zs.map (fun z => [z])).flatten = zs := by
-  induction zs with
-  | nil => rfl
-  | cons z zs ih => simp [ih]
+theorem mem_paren_expr {xs : List Tok} (h : ∀ tk ∈ xs, isExprTok tk = true) : ∀ tk ∈ parenToks xs, isExprTok tk = true := by
+  intro tk htk
+  rcases List.mem_cons.mp htk with rfl | htk
+  · rfl
+  · rcases List.mem_append.mp htk with htk | htk
+    · exact h tk htk
+    · simp at htk; subst htk; rfl
 
-theorem O_mapE_append {β γ : Type} (f : β → Except IErr γ) (l1 l2 : List β) :
-    O (mapE f (l1 ++ l2)) = (O (mapE f l1)).bind (fun a => (O (mapE f l2)).map (fun b => a ++ b)) := by
-  induction l1 with
-  | nil => simp [mapE]
-  | cons a l ih =>
-    simp only [List.cons_append]
-    rw [O_mapE_cons, O_mapE_cons, ih]
-    cases f a <;> simp
-    cases mapE f l <;> simp
-    cases mapE f l2 <;> simp
-
-theorem O_mapE_flatten {β γ : Type} (f : β → Except IErr γ) (ls : List (List β)) :
-    O (mapE f ls.flatten) = (O (mapE (mapE f) ls)).map List.flatten := by
-  induction ls with
-  | nil => rfl
-  | cons l ls ih =>
-    simp only [List.flatten_cons]
-    rw [O_mapE_append, ih, O_mapE_cons]
-    cases mapE f l <;> simp
-    cases mapE (mapE f) ls <;> simp
-
-theorem iterate_nil {β : Type} (k : Env → Except IErr β) (env : Env) : iterate k [] env = (k env).map (fun z => [z]) := by
-  simp only [iterate, envs, ok_bind, mapE]
-  cases k env <;> rfl
-
-/-- iterating a factorised leaf -/
-theorem O_iterate_comp {β δ : Type} (k1 : Env → Except IErr β) (k2 : Env → Except IErr δ) (f : δ → Except IErr β)
-    (h : ∀ env, O (k1 env) = O (k2 env >>= f)) (its : List It) (env : Env) :
-    O (iterate k1 its env) = O (iterate k2 its env >>= mapE f) := by
-  simp only [iterate]
-  rw [O_bind, O_bind, O_bind]
-  cases envs its env with
-  | error e => simp
-  | ok es => simp only [O_ok, Option.bind_some]; rw [O_mapE_comp k1 k2 f h es, O_bind]
-
-/-- **items**: expanding items with a factorised leaf = expanding to intermediate items, then
-applying the second factor to each of them (which is what transforming the unrolled items does) -/
-theorem O_expandItems_comp {X Y β : Type} (leaf1 : X → Env → Except IErr β) (unleaf : X → Env → Except IErr Y)
-    (leaf2 : Y → Except IErr β) (its : X → List It)
-    (env : Env) (xs : List X) (h : ∀ x ∈ xs, ∀ env, O (leaf1 x env) = O (unleaf x env >>= leaf2)) :
-    O (expandItems leaf1 its env xs) = O (expandItems unleaf its env xs >>= mapE leaf2) := by
-  simp only [expandItems]
-  have hx : ∀ x ∈ xs, O (iterate (leaf1 x) (its x) env) = O (iterate (unleaf x) (its x) env >>= mapE leaf2) :=
-    fun x hxm => O_iterate_comp _ _ _ (h x hxm) (its x) env
-  rw [O_bind, O_mapE_comp_mem _ _ _ xs hx, O_bind, O_bind, O_bind]
-  cases mapE (fun x => iterate (unleaf x) (its x) env) xs with
-  | error e => simp
-  | ok yss =>
-    simp only [O_ok, O_pure, Option.bind_some, ok_bind, pure_ok]
-    rw [O_mapE_flatten]
-    cases mapE (mapE leaf2) yss <;> simp
-
-/-- items without iterations are their single leaves -/
-theorem O_expandItems_flat {Y β : Type} (leaf : Y → Env → Except IErr β) (its : Y → List It) (ys : List Y)
-    (hits : ∀ y ∈ ys, its y = []) : O (expandItems leaf its [] ys) = O (mapE (fun y => leaf y []) ys) := by
-  simp only [expandItems]
-  have : O (mapE (fun y => iterate (leaf y) (its y) []) ys) = O (mapE (fun y => (leaf y []).map (fun z => [z])) ys) := by
-    induction ys with
-    | nil => rfl
-    | cons y ys ih =>
-      rw [O_mapE_cons, O_mapE_cons, ih (fun z hz => hits z (by simp [hz])), hits y (by simp), iterate_nil]
-  rw [O_bind, this, mapE_singleton_flatten]
-  cases mapE (fun y => leaf y []) ys <;> simp [flatten_map_singleton]
-
-theorem mem_of_mapE {β γ : Type} (f : β → Except IErr γ) (P : γ → Prop) (hf : ∀ a y, f a = .ok y → P y)
-    (l : List β) (ys : List γ) (h : mapE f l = .ok ys) : ∀ y ∈ ys, P y := mapE_forall f P hf l ys h
-
-theorem expandItems_forall {X Y : Type} (unleaf : X → Env → Except IErr Y) (its : X → List It) (P : Y → Prop)
-    (hP : ∀ x env y, unleaf x env = .ok y → P y) (env : Env) (xs : List X) (ys : List Y)
-    (h : expandItems unleaf its env xs = .ok ys) : ∀ y ∈ ys, P y := by
-  simp only [expandItems] at h
-  cases hm : mapE (fun x => iterate (unleaf x) (its x) env) xs with
-  | error e => simp [hm] at h
-  | ok yss =>
-    simp [hm] at h; subst h
-    intro y hy
-    obtain ⟨l, hl, hyl⟩ := List.mem_flatten.mp hy
-    have : ∀ l ∈ yss, ∀ y ∈ l, P y := by
-      apply mapE_forall _ (fun l => ∀ y ∈ l, P y) _ xs yss hm
-      intro x l hx
-      simp only [iterate] at hx
-      cases he : envs (its x) env with
-      | error e => simp [he] at hx
-      | ok es => simp [he] at hx; exact mapE_forall _ P (fun env' y hy' => hP x env' y hy') es l hx
-    exact this l hl y hyl
-
-/-! ### leaves -/
-
-theorem nameFlatten_unroll (env : Env) (n : NameM) : O (n.flatten env) = O (n.unroll env >>= NameM.flatten []) := by
-  cases n with
-  | plain s => simp [NameM.flatten, NameM.unroll]
-  | cv base idx =>
-    simp only [NameM.flatten, NameM.unroll]
-    rw [O_bind, O_mapE_comp (idxFrag env) (unrollIdx env) (idxFrag []) (idxFrag_unroll env) idx, O_bind, O_bind, O_bind]
-    cases mapE (unrollIdx env) idx with
-    | error e => simp
-    | ok idx' => simp only [O_ok, O_pure, Option.bind_some, ok_bind, pure_ok, NameM.flatten]; rw [O_bind]; simp only [O_ok]
-
-theorem litCE_eval (c : CE) (env : Env) : O ((c.eval env)) = O (litCE c env >>= fun c' => c'.eval []) := by
-  simp only [litCE]
-  cases c.eval env <;> simp [Except.map, CE.eval]
-
-section
-variable {α : Type} [Arith α]
-
-private theorem two_bounds (a b : CE) (env : Env) (k : Int → Int → Except IErr (VarType α)) :
-    O (do let lo ← a.eval env; let hi ← b.eval env; k lo hi) =
-    O (do let a' ← litCE a env; let b' ← litCE b env; (do let lo ← a'.eval []; let hi ← b'.eval []; k lo hi)) := by
-  simp only [litCE]
-  cases a.eval env <;> cases b.eval env <;> simp [Except.map, CE.eval]
-
-theorem tyEval_unroll (env : Env) (t : TyM) : O (t.eval (α := α) env) = O (t.unroll env >>= fun t' => t'.eval (α := α) []) := by
-  cases t with
-  | bool => simp [TyM.eval, TyM.unroll]
-  | real b =>
-    cases b with
-    | none => simp [TyM.eval, TyM.unroll]
-    | some ab =>
-      obtain ⟨a, b⟩ := ab
-      simp only [TyM.eval, TyM.unroll]
-      rw [two_bounds a b env]
-      simp only [litCE]
-      cases a.eval env <;> cases b.eval env <;> simp [Except.map, TyM.eval, CE.eval]
-  | nnreal b =>
-    cases b with
-    | none => simp [TyM.eval, TyM.unroll]
-    | some ab =>
-      obtain ⟨a, b⟩ := ab
-      simp only [TyM.eval, TyM.unroll]
-      rw [two_bounds a b env]
-      simp only [litCE]
-      cases a.eval env <;> cases b.eval env <;> simp [Except.map, TyM.eval, CE.eval]
-  | int a b =>
-    simp only [TyM.eval, TyM.unroll]
-    rw [two_bounds a b env]
-    simp only [litCE]
-    cases a.eval env <;> cases b.eval env <;> simp [Except.map, TyM.eval, CE.eval]
-
-/-- pairing every name with the one type of the declaration -/
-private theorem O_pairs {N T : Type} (a : N → Except IErr String) (t : Except IErr T) (vs : List N) (hne : vs ≠ []) :
-    O (mapE (fun v => do let n ← a v; let ty ← t; pure (n, ty)) vs) =
-      (O (mapE a vs)).bind (fun ns => (O t).map (fun ty => ns.map (fun n => (n, ty)))) := by
-  induction vs with
-  | nil => exact absurd rfl hne
-  | cons v vs ih =>
-    rw [O_mapE_cons, O_mapE_cons]
-    cases vs with
-    | nil => cases a v <;> cases t <;> simp [mapE]
-    | cons w ws =>
-      rw [ih (by simp)]
-      cases a v <;> cases t <;> simp
-      all_goals (cases mapE a (w :: ws) <;> simp)
-
-theorem declLeaf_unroll (d : DeclM) (hd : d.vars ≠ []) (env : Env) :
-    O (declLeaf (α := α) d env) = O (declUnrollLeaf d env >>= fun d' => declLeaf (α := α) d' []) := by
-  simp only [declLeaf, declUnrollLeaf]
-  rw [O_pairs (fun v => v.flatten env) (d.ty.eval (α := α) env) d.vars hd]
-  rw [O_mapE_comp (fun v => v.flatten env) (NameM.unroll env) (NameM.flatten []) (nameFlatten_unroll env) d.vars]
-  rw [tyEval_unroll env d.ty, O_bind, O_bind, O_bind]
-  cases hv : mapE (NameM.unroll env) d.vars with
-  | error e => simp
-  | ok vars' =>
-    have hne : vars' ≠ [] := by
-      intro h0; have := mapE_length _ _ _ hv; rw [h0] at this; exact hd (List.eq_nil_of_length_eq_zero this.symm)
-    simp only [O_ok, Option.bind_some, ok_bind]
-    rw [O_bind]
-    cases ht : d.ty.unroll env with
-    | error e => cases mapE (NameM.flatten []) vars' <;> simp
-    | ok ty' =>
-      simp only [O_ok, O_pure, Option.bind_some, ok_bind, pure_ok]
-      exact (O_pairs (fun v => v.flatten []) (ty'.eval (α := α) []) vars' hne).symm
-
-/-- three independent factorised steps -/
-theorem O_tri {A B C P Q R W : Type} (a1 : Except IErr A) (a2 : Except IErr B) (a3 : Except IErr C)
-    (u1 : Except IErr P) (u2 : Except IErr Q) (u3 : Except IErr R)
-    (b1 : P → Except IErr A) (b2 : Q → Except IErr B) (b3 : R → Except IErr C) (F : A → B → C → W)
-    (h1 : O a1 = O (u1 >>= b1)) (h2 : O a2 = O (u2 >>= b2)) (h3 : O a3 = O (u3 >>= b3)) :
-    O (do let x ← a1; let y ← a2; let z ← a3; pure (F x y z)) =
-    O (do let p ← u1; let q ← u2; let r ← u3; (do let x ← b1 p; let y ← b2 q; let z ← b3 r; pure (F x y z))) := by
-  cases u1 with
-  | error e => simp at h1 ⊢; cases a1 <;> simp_all
-  | ok p =>
-    cases u2 with
-    | error e => simp at h2 ⊢; cases a1 <;> cases a2 <;> simp_all
-    | ok q =>
-      cases u3 with
-      | error e => simp at h3 ⊢; cases a1 <;> cases a2 <;> cases a3 <;> simp_all
-      | ok r =>
-        simp at h1 h2 h3 ⊢
-        cases a1 <;> cases a2 <;> cases a3 <;> cases hb1 : b1 p <;> cases hb2 : b2 q <;> cases hb3 : b3 r <;> simp_all
-
-theorem relLeaf_unroll (rel : Option (Cmp × ME)) (env : Env) :
-    O (relLeaf (α := α) rel env) = O (relUnroll rel env >>= fun r' => relLeaf (α := α) r' []) := by
-  cases rel with
-  | none => simp [relLeaf, relUnroll]
-  | some kr =>
-    obtain ⟨k, r⟩ := kr
-    simp only [relLeaf, relUnroll]
-    rw [expand_unroll env r, O_bind, O_bind, O_bind]
-    cases unroll env r <;> simp [relLeaf]
-theorem relUnroll_shape (rel rel' : Option (Cmp × ME)) (env : Env) (h : relUnroll rel env = .ok rel') :
-    cmpOf rel' = cmpOf rel ∧ rel'.isNone = rel.isNone := by
-  cases rel with
-  | none => simp [relUnroll] at h; subst h; simp
-  | some kr =>
-    obtain ⟨k, r⟩ := kr
-    simp only [relUnroll] at h
-    cases hu : unroll env r <;> simp [hu] at h
-    subst h; simp [cmpOf]
-theorem nameLeaf_unroll (name : Option NameM) (env : Env) :
-    O (nameLeaf name env) = O (nameUnroll name env >>= fun n' => nameLeaf n' []) := by
-  cases name with
-  | none => simp [nameLeaf, nameUnroll]
-  | some n =>
-    simp only [nameLeaf, nameUnroll]
-    rw [nameFlatten_unroll env n, O_bind, O_bind, O_bind]
-    cases n.unroll env <;> simp [nameLeaf]
-
-theorem consLeaf_unroll (c : ConsM) (env : Env) :
-    O (consLeaf (α := α) c env) = O (consUnrollLeaf c env >>= fun c' => consLeaf (α := α) c' []) := by
-  obtain ⟨name, lhs, rel, its⟩ := c
-  simp only [consLeaf, consUnrollLeaf]
-  have key := O_tri (expand (α := α) env lhs) (relLeaf (α := α) rel env) (nameLeaf name env)
-    (unroll env lhs) (relUnroll rel env) (nameUnroll name env)
-    (fun l' => expand (α := α) [] l') (fun r' => relLeaf (α := α) r' []) (fun n' => nameLeaf n' [])
-    (fun l r n => ({ name := n, lhs := l, cmp := cmpOf rel, rhs := r, isAssert := rel.isNone } : Constraint α))
-    (expand_unroll env lhs) (relLeaf_unroll rel env) (nameLeaf_unroll name env)
-  rw [key]
-  cases unroll env lhs with
-  | error e => simp
-  | ok l' =>
-    cases hr : relUnroll rel env with
-    | error e => simp
-    | ok r' =>
-      obtain ⟨hc, hn⟩ := relUnroll_shape rel r' env hr
-      cases nameUnroll name env with
-      | error e => simp
-      | ok n' => simp [consLeaf, hc, hn]
-
-theorem objLeaf_unroll (o : Option (OptType × ME)) (env : Env) :
-    O (objLeaf (α := α) o env) = O (objUnroll o env >>= fun o' => objLeaf (α := α) o' []) := by
-  cases o with
-  | none => simp [objLeaf, objUnroll]
-  | some te =>
-    obtain ⟨t, e⟩ := te
-    simp only [objLeaf, objUnroll]
-    rw [expand_unroll env e, O_bind, O_bind, O_bind]
-    cases unroll env e <;> simp [objLeaf]
-theorem objUnroll_shape (o o' : Option (OptType × ME)) (env : Env) (h : objUnroll o env = .ok o') : optTypeOf o' = optTypeOf o := by
-  cases o with
-  | none => simp [objUnroll] at h; subst h; rfl
-  | some te =>
-    obtain ⟨t, e⟩ := te
-    simp only [objUnroll] at h
-    cases hu : unroll env e <;> simp [hu] at h
-    subst h; rfl
-
-theorem O_tri_congr {A B C W : Type} (a1 a1' : Except IErr A) (a2 a2' : Except IErr B) (a3 a3' : Except IErr C) (F : A → B → C → W)
-    (h1 : O a1 = O a1') (h2 : O a2 = O a2') (h3 : O a3 = O a3') :
-    O (do let x ← a1; let y ← a2; let z ← a3; pure (F x y z)) = O (do let x ← a1'; let y ← a2'; let z ← a3'; pure (F x y z)) := by
-  cases a1 <;> cases a1' <;> cases a2 <;> cases a2' <;> cases a3 <;> cases a3' <;> simp_all
-
-/-- the domain of the unrolled declarations -/
-theorem domainOf_unroll (env : Env) (decls : List DeclM) (hwf : ∀ d ∈ decls, d.vars ≠ []) :
-    O (domainOf (α := α) env decls) =
-      O (expandItems declUnrollLeaf DeclM.its env decls >>= fun ds' => domainOf (α := α) [] ds') := by
-  simp only [domainOf]
-  rw [O_bind, O_expandItems_comp (declLeaf (α := α)) declUnrollLeaf (fun d' => declLeaf (α := α) d' []) DeclM.its env decls
-    (fun d hd env' => declLeaf_unroll d (hwf d hd) env'), O_bind, O_bind]
-  cases hu : expandItems declUnrollLeaf DeclM.its env decls with
-  | error e => simp
-  | ok ds' =>
-    have hits : ∀ d' ∈ ds', d'.its = [] := by
-      apply expandItems_forall declUnrollLeaf DeclM.its (fun d' => d'.its = []) _ env decls ds' hu
-      intro d env' d' h
-      simp only [declUnrollLeaf] at h
-      cases h1 : mapE (NameM.unroll env') d.vars <;> cases h2 : TyM.unroll env' d.ty <;> simp [h1, h2] at h
-      subst h; rfl
-    simp only [O_ok, Option.bind_some, ok_bind]
-    rw [O_bind, O_expandItems_flat (declLeaf (α := α)) DeclM.its ds' hits]
-
-theorem consOf_unroll (env : Env) (cons : List ConsM) :
-    O (expandItems (consLeaf (α := α)) ConsM.its env cons) =
-      O (expandItems consUnrollLeaf ConsM.its env cons >>= fun cs' => expandItems (consLeaf (α := α)) ConsM.its [] cs') := by
-  rw [O_expandItems_comp (consLeaf (α := α)) consUnrollLeaf (fun c' => consLeaf (α := α) c' []) ConsM.its env cons
-    (fun c _ env' => consLeaf_unroll c env'), O_bind, O_bind]
-  cases hu : expandItems consUnrollLeaf ConsM.its env cons with
-  | error e => rfl
-  | ok cs' =>
-    have hits : ∀ c' ∈ cs', c'.its = [] := by
-      apply expandItems_forall consUnrollLeaf ConsM.its (fun c' => c'.its = []) _ env cons cs' hu
-      intro c env' c' h
-      simp only [consUnrollLeaf] at h
-      cases h1 : unroll env' c.lhs <;> cases h2 : relUnroll c.rel env' <;> cases h3 : nameUnroll c.name env' <;> simp [h1, h2, h3] at h
-      subst h; rfl
-    simp only [O_ok, Option.bind_some]
-    rw [O_expandItems_flat (consLeaf (α := α)) ConsM.its cs' hits]
-
-/-- **whole programs**: transforming = transforming the hand-unrolled program (raw model) -/
-theorem transformRaw_unroll (p : ProgM) (hwf : ∀ d ∈ p.decls, d.vars ≠ []) :
-    O (transformRaw (α := α) p) = O (unrollProg p >>= fun q => transformRaw (α := α) q) := by
-  simp only [transformRaw, unrollProg]
-  rw [O_bind, O_bind, O_bind]
-  cases evalConsts p.consts [] with
-  | error e => simp
-  | ok env =>
-    simp only [O_ok, Option.bind_some, ok_bind, transformIn]
-    have key := O_tri (domainOf (α := α) env p.decls) (objLeaf (α := α) p.obj env) (expandItems (consLeaf (α := α)) ConsM.its env p.cons)
-      (expandItems declUnrollLeaf DeclM.its env p.decls) (objUnroll p.obj env) (expandItems consUnrollLeaf ConsM.its env p.cons)
-      (fun ds' => domainOf (α := α) [] ds') (fun o' => objLeaf (α := α) o' []) (fun cs' => expandItems (consLeaf (α := α)) ConsM.its [] cs')
-      (fun domain o cs => ({ optType := optTypeOf p.obj, objective := o, constraints := cs, domain := domain } : RawModel α))
-      (domainOf_unroll env p.decls hwf) (objLeaf_unroll p.obj env) (consOf_unroll env p.cons)
-    rw [key]
-    cases expandItems declUnrollLeaf DeclM.its env p.decls with
-    | error e => simp
-    | ok ds' =>
-      cases ho : objUnroll p.obj env with
-      | error e => simp
-      | ok o' =>
-        have hs := objUnroll_shape p.obj o' env ho
-        cases expandItems consUnrollLeaf ConsM.its env p.cons with
-        | error e => simp
-        | ok cs' => simp [evalConsts, transformIn, hs]
-
-/-- … and therefore the finished model with its usage counts -/
-theorem transformCore_unroll (p : ProgM) (hwf : ∀ d ∈ p.decls, d.vars ≠ []) :
-    O (transformCore (α := α) p) = O (unrollProg p >>= fun q => transformCore (α := α) q) := by
-  simp only [transformCore]
-  rw [O_bind, transformRaw_unroll p hwf, O_bind, O_bind]
-  cases unrollProg p with
-  | error e => simp
-  | ok q => simp only [O_ok, Option.bind_some]; rw [O_bind]
-
+mutual
+theorem fmtToks_expr : (t : PExp) → ∀ tk ∈ fmtToks t, isExprTok tk = true
+  | .int _ => by intro tk h; simp [fmtToks] at h; subst h; rfl
+  | .num _ => by intro tk h; simp [fmtToks] at h; subst h; rfl
+  | .bool _ => by intro tk h; simp [fmtToks] at h; subst h; rfl
+  | .var _ => by intro tk h; simp [fmtToks] at h; subst h; rfl
+  | .call n args => by
+    intro tk h
+    simp only [fmtToks] at h
+    rcases List.mem_cons.mp h with rfl | h
+    · rfl
+    · exact mem_paren_expr (fmtToksArgs_expr args) tk h
+  | .un u e => by
+    intro tk h
+    simp only [fmtToks] at h
+    rcases List.mem_cons.mp h with rfl | h
+    · exact unKwTok_expr u
+    · by_cases hl : e.isLeaf = true
+      · simp only [hl, if_true] at h; exact fmtToks_expr e tk h
+      · simp only [hl] at h; exact mem_paren_expr (fmtToks_expr e) tk h
+  | .bin o l r => by
+    intro tk h
+    have hp : ∀ (b : Bool) (e : PExp), (∀ tk ∈ fmtToks e, isExprTok tk = true) →
+        ∀ tk ∈ (if b then parenToks (fmtToks e) else fmtToks e), isExprTok tk = true := by
+      intro b e ih tk h
+      cases b
+      · exact ih tk (by simpa using h)
+      · exact mem_paren_expr ih tk (by simpa using h)
+    simp only [fmtToks] at h
+    rcases List.mem_append.mp h with h | h
+    · exact hp _ l (fmtToks_expr l) tk h
+    · rcases List.mem_cons.mp h with rfl | h
+      · exact binKwTok_expr o
+      · exact hp _ r (fmtToks_expr r) tk h
+  | .str _ | .prim _ | .cvar _ _ | .access _ _ | .block _ _ | .scoped _ _ _ _ => by intro tk h; simp [fmtToks] at h
+theorem fmtToksArgs_expr : (as : List PExp) → ∀ tk ∈ fmtToksArgs as, isExprTok tk = true
+  | [] => by intro tk h; simp [fmtToksArgs] at h
+  | [a] => by simpa [fmtToksArgs] using fmtToks_expr a
+  | a :: b :: rest => by
+    intro tk h
+    simp only [fmtToksArgs] at h
+    rcases List.mem_append.mp h with h | h
+    · exact fmtToks_expr a tk h
+    · rcases List.mem_cons.mp h with rfl | h
+      · rfl
+      · exact fmtToksArgs_expr (b :: rest) tk h
 end
 
-/-- the unrolled program: no `where` section, no `for` -/
-theorem unrollProg_plain (p q : ProgM) (h : unrollProg p = .ok q) :
-    q.consts = [] ∧ (∀ c ∈ q.cons, c.its = []) ∧ (∀ d ∈ q.decls, d.its = []) := by
-  simp only [unrollProg] at h
-  cases he : evalConsts p.consts [] with
-  | error e => simp [he] at h
-  | ok env =>
-    cases hd : expandItems declUnrollLeaf DeclM.its env p.decls with
-    | error e => simp [he, hd] at h
-    | ok ds' =>
-      cases ho : objUnroll p.obj env with
-      | error e => simp [he, hd, ho] at h
-      | ok o' =>
-        cases hc : expandItems consUnrollLeaf ConsM.its env p.cons with
-        | error e => simp [he, hd, ho, hc] at h
-        | ok cs' =>
-          simp [he, hd, ho, hc] at h
-          subst h
-          refine ⟨rfl, ?_, ?_⟩
-          · apply expandItems_forall consUnrollLeaf ConsM.its (fun c' => c'.its = []) _ env p.cons cs' hc
-            intro c env' c' h
-            simp only [consUnrollLeaf] at h
-            cases h1 : unroll env' c.lhs <;> cases h2 : relUnroll c.rel env' <;> cases h3 : nameUnroll c.name env' <;> simp [h1, h2, h3] at h
-            subst h; rfl
-          · apply expandItems_forall declUnrollLeaf DeclM.its (fun d' => d'.its = []) _ env p.decls ds' hd
-            intro d env' d' h
-            simp only [declUnrollLeaf] at h
-            cases h1 : mapE (NameM.unroll env') d.vars <;> cases h2 : TyM.unroll env' d.ty <;> simp [h1, h2] at h
-            subst h; rfl
+/-- the printed tokens of a well-formed expression are not empty -/
+theorem fmtToks_cons : (t : PExp) → WF t → ∃ tk tl, fmtToks t = tk :: tl
+  | .int _, _ | .num _, _ | .bool _, _ | .var _, _ => by simp [fmtToks]
+  | .call _ _, _ => by simp [fmtToks]
+  | .un _ _, _ => by simp [fmtToks]
+  | .bin o l r, h => by
+    obtain ⟨tk, tl, hl⟩ := fmtToks_cons l h.1
+    by_cases hp : printsParen o false l = true
+    · simp [fmtToks, hp, parenToks]
+    · simp [fmtToks, hp, hl]
+  | .str _, h | .prim _, h | .cvar _ _, h | .access _ _, h | .block _ _, h | .scoped _ _ _ _, h => by simp [WF] at h
 
-end Rooc.Proofs.Program
+/-- **one expression**: printed tokens followed by a terminator are read back -/
+theorem expAt_fmt {e : PExp} (h : WF e) {rest : List Tok} (hc : Closed rest) :
+    expAt (fmtToks e ++ rest) = .ok (e, rest) := by
+  obtain ⟨items, hk, _⟩ := fmt_tk e h
+  exact parseExp_of_main (tk_main hk).1 hk.toIR hc _ (by simp [parseFuel]; omega)
+
+/-! ### newlines -/
+
+theorem skipNl_expr {tk : Tok} (h : isExprTok tk = true) (tl : List Tok) : skipNl (tk :: tl) = tk :: tl := by
+  cases tk <;> simp [isExprTok] at h <;> rfl
+
+theorem skipNl_fmt {e : PExp} (h : WF e) (rest : List Tok) : skipNl (fmtToks e ++ rest) = fmtToks e ++ rest := by
+  obtain ⟨tk, tl, ht⟩ := fmtToks_cons e h
+  have := fmtToks_expr e tk (by rw [ht]; exact List.mem_cons_self)
+  rw [ht]; exact skipNl_expr this _
+
+theorem skipNl_word (w : String) (tl : List Tok) : skipNl (.word w :: tl) = .word w :: tl := rfl
+
+/-! ### objective -/
+
+/-- well-formed constraint of the fragment -/
+def WFc (c : PConstraint) : Prop :=
+  (match c.name with
+   | none => True
+   | some (.plain n) => isKeyword n = false
+   | some (.compound _ _) => False)
+  ∧ WF c.lhs ∧ (if c.logic = true then c.cmp = .eq ∧ c.rhs = .bool true else WF c.rhs)
+  ∧ c.iterVars = [] ∧ c.iters = []
+
+theorem cmpOfTok_cmpTok (c : Cmp) : cmpOfTok (cmpTok c) = some c := by cases c <;> rfl
+theorem cmpTok_term (c : Cmp) : isTerm (cmpTok c) = true := by cases c <;> rfl
+
+/-- a constraint name is not mistaken where there is none: the second token of an expression text followed
+by a comparison / NEWLINE is never `:` -/
+theorem constraintName_none {ts : List Tok} {x : Tok} {tail : List Tok} (hne : ∃ tk tl, ts = tk :: tl)
+    (hall : ∀ tk ∈ ts, isExprTok tk = true) (hx : x ≠ .colon) :
+    constraintName (ts ++ x :: tail) = (none, ts ++ x :: tail) := by
+  obtain ⟨tk, tl, rfl⟩ := hne
+  cases tl with
+  | nil =>
+    cases tk <;> first | rfl | skip
+    rename_i w
+    cases x <;> first | rfl | exact absurd rfl hx
+  | cons t2 tl2 =>
+    have h2 : t2 ≠ .colon := by
+      intro e; have := hall t2 (by simp); rw [e] at this; cases this
+    cases tk <;> first | rfl | skip
+    rename_i w
+    cases t2 <;> first | rfl | exact absurd rfl h2
+
+theorem parseConstraint_fmt {c : PConstraint} (h : WFc c) (rest : List Tok) :
+    parseConstraint (constraintToks c ++ .nl :: rest) = .ok (c, .nl :: rest) := by
+  obtain ⟨hn, hl, hr, hiv, hit⟩ := h
+  obtain ⟨name, lhs, cmp, rhs, logic, iterVars, iters⟩ := c
+  simp only at hn hl hr hiv hit
+  subst hiv hit
+  -- the body after the (optional) name
+  have hbody : ∀ nm, constraintBody nm
+        (fmtToks lhs ++ ((if logic = true then [] else cmpTok cmp :: fmtToks rhs) ++ .nl :: rest)) =
+      .ok ({ name := nm, lhs := lhs, cmp := cmp, rhs := rhs, logic := logic, iterVars := [], iters := [] }, .nl :: rest) := by
+    intro nm
+    unfold constraintBody
+    cases logic with
+    | true =>
+      obtain ⟨hc, hrr⟩ : cmp = .eq ∧ rhs = .bool true := by simpa using hr
+      subst hc hrr
+      simp only [if_true, List.nil_append]
+      rw [expAt_fmt hl (closed_nl rest)]
+      simp [cmpOfTok]
+    | false =>
+      have hr' : WF rhs := by simpa using hr
+      simp only [Bool.false_eq_true, if_false, List.cons_append]
+      rw [expAt_fmt hl (closed_of_term (cmpTok_term cmp) _)]
+      simp only [cmpOfTok_cmpTok]
+      rw [expAt_fmt hr' (closed_nl rest)]
+  unfold parseConstraint
+  match name, hn with
+  | none, _ =>
+    have hcn : constraintName (constraintToks { name := none, lhs := lhs, cmp := cmp, rhs := rhs, logic := logic, iterVars := [], iters := [] } ++ .nl :: rest)
+        = (none, fmtToks lhs ++ ((if logic = true then [] else cmpTok cmp :: fmtToks rhs) ++ .nl :: rest)) := by
+      simp only [constraintToks, List.nil_append, List.append_assoc]
+      cases logic with
+      | true =>
+        simpa using constraintName_none (x := .nl) (tail := rest) (fmtToks_cons lhs hl) (fmtToks_expr lhs) (by simp)
+      | false =>
+        have := constraintName_none (x := cmpTok cmp) (tail := fmtToks rhs ++ .nl :: rest) (fmtToks_cons lhs hl) (fmtToks_expr lhs)
+          (by cases cmp <;> simp [cmpTok])
+        simpa using this
+    rw [hcn]
+    exact hbody none
+  | some (.plain n), hk =>
+    have hcn : constraintName (constraintToks { name := some (.plain n), lhs := lhs, cmp := cmp, rhs := rhs, logic := logic, iterVars := [], iters := [] } ++ .nl :: rest)
+        = (some (.plain n), fmtToks lhs ++ ((if logic = true then [] else cmpTok cmp :: fmtToks rhs) ++ .nl :: rest)) := by
+      simp only [constraintToks, cnameToks, List.cons_append, List.nil_append, List.append_assoc, constraintName, hk]
+      simp [skipNl_fmt hl]
+    rw [hcn]
+    exact hbody (some (.plain n))
+
+/-! ### where an expression cannot start -/
+
+theorem expAt_nil : expAt [] = .error .reject := by
+  simp [expAt, parseFuel, parseExp, collect, optUnary, leaf]
+
+theorem expAt_keyword {w : String} (hk : isKeyword w = true) (hb : Gen.booleanWords.contains w = false) (hn : w ≠ "not")
+    (r : List Tok) (hr : ∀ tl, r ≠ .lpar :: tl) : expAt (.word w :: r) = .error .reject := by
+  have hf : parseFuel (.word w :: r) = (6 * r.length + 13) + 3 := by simp [parseFuel]; omega
+  have hu : optUnary (.word w :: r) = ([], .word w :: r) := by simp [optUnary, unRule_word hn]
+  have hl : leaf (6 * r.length + 13 + 1) (.word w :: r) = .error .reject := by
+    rw [leaf_word _ _ _ hr]; simp only [wordLeaf, hb, hk]; rfl
+  simp only [expAt, hf, parseExp, collect, hu, hl]
+
+theorem constraint_stops_nil : parseConstraint [] = .error .reject := by
+  simp [parseConstraint, constraintName, constraintBody, expAt_nil]
+
+theorem constraint_stops_kw {w : String} (hk : isKeyword w = true) (hb : Gen.booleanWords.contains w = false) (hn : w ≠ "not")
+    (r : List Tok) : parseConstraint (.word w :: .nl :: r) = .error .reject := by
+  have : expAt (.word w :: .nl :: r) = .error .reject := expAt_keyword hk hb hn _ (by intro tl h; cases h)
+  simp [parseConstraint, constraintName, constraintBody, this]
+
+/-- what may follow the constraint list: nothing, `where …` or `define …` -/
+def StopsC (X : List Tok) : Prop :=
+  X = [] ∨ (∃ r, X = .word "where" :: .nl :: r) ∨ (∃ r, X = .word "define" :: .nl :: r)
+
+theorem stopsC_spec {X : List Tok} (h : StopsC X) : parseConstraint X = .error .reject ∧ skipNl X = X := by
+  rcases h with rfl | ⟨r, rfl⟩ | ⟨r, rfl⟩
+  · exact ⟨constraint_stops_nil, rfl⟩
+  · exact ⟨constraint_stops_kw (by decide) (by decide) (by decide) r, rfl⟩
+  · exact ⟨constraint_stops_kw (by decide) (by decide) (by decide) r, rfl⟩
+
+theorem skipNl_constraint {c : PConstraint} (h : WFc c) (rest : List Tok) :
+    skipNl (constraintToks c ++ rest) = constraintToks c ++ rest := by
+  obtain ⟨hn, hl, _⟩ := h
+  unfold constraintToks
+  match hc : c.name, hn with
+  | none, _ => simp only [List.nil_append, List.append_assoc]; exact skipNl_fmt hl _
+  | some (.plain n), _ => simp [cnameToks, skipNl]
+
+/-- the constraint list, entered after a NEWLINE -/
+theorem loopC : ∀ (cs : List PConstraint), (∀ c ∈ cs, WFc c) → ∀ (X : List Tok) (acc : List PConstraint) (f : Nat),
+    StopsC X → cs.length < f →
+    parseConstraints f (.nl :: (constraintsToks cs ++ X)) acc = .ok (acc ++ cs, .nl :: X)
+  | [], _, X, acc, f, hX, hf => by
+    obtain ⟨f', rfl⟩ : ∃ f', f = f' + 1 := ⟨f - 1, by simp at hf; omega⟩
+    obtain ⟨h1, h2⟩ := stopsC_spec hX
+    simp [parseConstraints, constraintsToks, skipNl, h2, h1]
+  | c :: cs, h, X, acc, f, hX, hf => by
+    obtain ⟨f', rfl⟩ : ∃ f', f = f' + 1 := ⟨f - 1, by simp at hf; omega⟩
+    have hc := h c List.mem_cons_self
+    have ih := loopC cs (fun d hd => h d (List.mem_cons_of_mem _ hd)) X (acc ++ [c]) f' hX (by simp at hf; omega)
+    simp only [parseConstraints, constraintsToks, skipNl, List.append_assoc, List.cons_append]
+    rw [skipNl_constraint hc, parseConstraint_fmt hc]
+    simp only [ih]
+    simp
+
+/-- the constraint list right after `s.t.` NEWLINE (at least one constraint) -/
+theorem firstC {c : PConstraint} {cs : List PConstraint} (h : ∀ d ∈ c :: cs, WFc d) (X : List Tok) (hX : StopsC X) :
+    parseConstraints ((constraintsToks (c :: cs) ++ X).length + 1) (constraintsToks (c :: cs) ++ X) [] = .ok (c :: cs, .nl :: X) := by
+  have hc := h c List.mem_cons_self
+  have hlen : cs.length < (constraintsToks (c :: cs) ++ X).length := by
+    have : ∀ (l : List PConstraint), l.length ≤ (constraintsToks l).length := by
+      intro l; induction l with
+      | nil => simp [constraintsToks]
+      | cons a l ih => simp [constraintsToks]; omega
+    have := this cs
+    simp [constraintsToks]; omega
+  simp only [parseConstraints, constraintsToks, List.append_assoc, List.cons_append]
+  rw [skipNl_constraint hc, parseConstraint_fmt hc]
+  have := loopC cs (fun d hd => h d (List.mem_cons_of_mem _ hd)) X [c] _ hX (by simpa [constraintsToks] using hlen)
+  simpa [constraintsToks] using this
+
+/-! ### `where` -/
+
+/-- what may follow the constants: nothing or `define …` -/
+def StopsK (Y : List Tok) : Prop := Y = [] ∨ ∃ r, Y = .word "define" :: .nl :: r
+
+theorem loopK : ∀ (ks : List (String × PExp)), (∀ k ∈ ks, WF k.2) → ∀ (Y : List Tok) (acc : List (String × PExp)) (f : Nat),
+    StopsK Y → ks.length < f →
+    parseConsts f (.nl :: (constsToks ks ++ Y)) acc = .ok (acc ++ ks, .nl :: Y)
+  | [], _, Y, acc, f, hY, hf => by
+    obtain ⟨f', rfl⟩ : ∃ f', f = f' + 1 := ⟨f - 1, by simp at hf; omega⟩
+    rcases hY with rfl | ⟨r, rfl⟩ <;> simp [parseConsts, constsToks, needNl, skipNl]
+  | (n, v) :: ks, h, Y, acc, f, hY, hf => by
+    obtain ⟨f', rfl⟩ : ∃ f', f = f' + 1 := ⟨f - 1, by simp at hf; omega⟩
+    have hv : WF v := h (n, v) List.mem_cons_self
+    have ih := loopK ks (fun d hd => h d (List.mem_cons_of_mem _ hd)) Y (acc ++ [(n, v)]) f' hY (by simp at hf; omega)
+    simp only [parseConsts, constsToks, needNl, skipNl, List.cons_append, List.append_assoc]
+    rw [expAt_fmt hv (closed_nl _)]
+    simp only [ih]
+    simp
+
+/-! ### `define` -/
+
+def plainName : CName → Prop
+  | .plain n => isKeyword n = false
+  | .compound _ _ => False
+
+def WFt : PVarType → Prop
+  | .boolean => True
+  | .nonNegReal none none => True
+  | .nonNegReal (some a) (some b) => WF a ∧ WF b
+  | .real none none => True
+  | .real (some a) (some b) => WF a ∧ WF b
+  | .intRange a b => WF a ∧ WF b
+  | _ => False
+
+/-- well-formed domain declaration of the fragment -/
+def WFd (d : PDomain) : Prop :=
+  d.vars ≠ [] ∧ (∀ v ∈ d.vars, plainName v) ∧ WFt d.ty ∧ d.iterVars = [] ∧ d.iters = []
+
+theorem parseDomainVars_fmt : ∀ (vs : List CName), vs ≠ [] → (∀ v ∈ vs, plainName v) → ∀ (R : List Tok) (acc : List CName) (f : Nat),
+    vs.length ≤ f → (∀ tl, R ≠ .comma :: tl) →
+    parseDomainVars f (varListToks vs ++ R) acc = some (acc ++ vs, R)
+  | [], h, _, _, _, _, _, _ => absurd rfl h
+  | [.plain n], _, hp, R, acc, f, hf, hR => by
+    obtain ⟨f', rfl⟩ : ∃ f', f = f' + 1 := ⟨f - 1, by simp at hf; omega⟩
+    have hk : isKeyword n = false := hp (.plain n) List.mem_cons_self
+    cases R with
+    | nil => simp [parseDomainVars, varListToks, cnameToks, hk]
+    | cons t tl =>
+      have : t ≠ .comma := fun e => hR tl (by rw [e])
+      cases t <;> first | exact absurd rfl this | simp [parseDomainVars, varListToks, cnameToks, hk]
+  | [.compound _ _], _, hp, _, _, _, _, _ => absurd (hp _ List.mem_cons_self) (by simp [plainName])
+  | .plain n :: w :: rest, _, hp, R, acc, f, hf, hR => by
+    obtain ⟨f', rfl⟩ : ∃ f', f = f' + 1 := ⟨f - 1, by simp at hf; omega⟩
+    have hk : isKeyword n = false := hp (.plain n) List.mem_cons_self
+    have ih := parseDomainVars_fmt (w :: rest) (by simp) (fun v hv => hp v (List.mem_cons_of_mem _ hv)) R (acc ++ [.plain n]) f'
+      (by simp at hf ⊢; omega) hR
+    have hskip : skipNl (varListToks (w :: rest) ++ R) = varListToks (w :: rest) ++ R := by
+      have hw : plainName w := hp w (by simp)
+      cases w with
+      | plain m => cases rest <;> simp [varListToks, cnameToks, skipNl]
+      | compound _ _ => exact absurd hw (by simp [plainName])
+    simp only [parseDomainVars, varListToks, cnameToks, List.cons_append, List.nil_append, hk, List.append_assoc]
+    simp only [Bool.false_eq_true, if_false]
+    rw [hskip, ih]
+    simp
+  | .compound _ _ :: _ :: _, _, hp, _, _, _, _, _ => absurd (hp _ List.mem_cons_self) (by simp [plainName])
+
+theorem varListToks_len : ∀ (vs : List CName), (∀ v ∈ vs, plainName v) → vs.length ≤ (varListToks vs).length
+  | [], _ => by simp
+  | [.plain _], _ => by simp [varListToks, cnameToks]
+  | [.compound _ _], h => absurd (h _ List.mem_cons_self) (by simp [plainName])
+  | .plain _ :: w :: rest, h => by
+    have := varListToks_len (w :: rest) (fun v hv => h v (List.mem_cons_of_mem _ hv))
+    simp [varListToks, cnameToks] at this ⊢; omega
+  | .compound _ _ :: _ :: _, h => absurd (h _ List.mem_cons_self) (by simp [plainName])
+
+theorem typeArgs2 {a b : PExp} (ha : WF a) (hb : WF b) (R : List Tok) (f : Nat) (hf : 2 ≤ f) :
+    parseTypeArgs f (fmtToks a ++ .comma :: (fmtToks b ++ .rpar :: R)) [] = .ok ([a, b], R) := by
+  obtain ⟨f', rfl⟩ : ∃ f', f = f' + 2 := ⟨f - 2, by omega⟩
+  simp only [parseTypeArgs]
+  rw [expAt_fmt ha (closed_comma _)]
+  simp only [skipNl_fmt hb, List.nil_append]
+  rw [expAt_fmt hb (closed_rpar _)]
+  simp
+
+theorem parseDomain_fmt {d : PDomain} (h : WFd d) (rest : List Tok) :
+    parseDomain (domainToks d ++ .nl :: rest) = .ok (d, .nl :: rest) := by
+  obtain ⟨hne, hp, ht, hiv, hit⟩ := h
+  obtain ⟨vars, ty, iterVars, iters⟩ := d
+  simp only at hne hp ht hiv hit
+  subst hiv hit
+  have hvars : ∀ T, parseDomainVars ((varListToks vars ++ .word "as" :: T).length + 1) (varListToks vars ++ .word "as" :: T) []
+      = some (vars, .word "as" :: T) := by
+    intro T
+    have := parseDomainVars_fmt vars hne hp (.word "as" :: T) [] ((varListToks vars ++ .word "as" :: T).length + 1)
+      (by have := varListToks_len vars hp; simp; omega) (by intro tl e; cases e)
+    simpa using this
+  have has : lowerWord "as" = "as" := by decide
+  unfold parseDomain
+  simp only [domainToks, List.append_assoc, List.cons_append]
+  rw [hvars]
+  simp only [skipNl_word]
+  match ty, ht with
+  | .boolean, _ => simp [typeToks, has, isTypeName, isKeyword, mkVarType]; decide
+  | .nonNegReal none none, _ => simp [typeToks, has, isTypeName, isKeyword, mkVarType]; decide
+  | .real none none, _ => simp [typeToks, has, isTypeName, isKeyword, mkVarType]; decide
+  | .nonNegReal (some a) (some b), ⟨ha, hb⟩ =>
+    have ht1 : isTypeName "NonNegativeReal" = true := by decide
+    have ht2 : isKeyword "NonNegativeReal" = false := by decide
+    simp only [typeToks, List.cons_append, List.append_assoc, List.nil_append, has, ht1, ht2, beq_self_eq_true, Bool.and_self,
+      Bool.not_false, Bool.and_true, if_true]
+    rw [typeArgs2 ha hb _ _ (by simp; omega)]
+    simp [mkVarType]
+  | .real (some a) (some b), ⟨ha, hb⟩ =>
+    have ht1 : isTypeName "Real" = true := by decide
+    have ht2 : isKeyword "Real" = false := by decide
+    simp only [typeToks, List.cons_append, List.append_assoc, List.nil_append, has, ht1, ht2, beq_self_eq_true, Bool.and_self,
+      Bool.not_false, Bool.and_true, if_true]
+    rw [typeArgs2 ha hb _ _ (by simp; omega)]
+    simp [mkVarType]
+  | .intRange a b, ⟨ha, hb⟩ =>
+    have ht1 : isTypeName "IntegerRange" = true := by decide
+    have ht2 : isKeyword "IntegerRange" = false := by decide
+    simp only [typeToks, List.cons_append, List.append_assoc, List.nil_append, has, ht1, ht2, beq_self_eq_true, Bool.and_self,
+      Bool.not_false, Bool.and_true, if_true]
+    rw [typeArgs2 ha hb _ _ (by simp; omega)]
+    simp [mkVarType]
+
+theorem skipNl_domain {d : PDomain} (h : WFd d) (rest : List Tok) :
+    skipNl (domainToks d ++ rest) = domainToks d ++ rest := by
+  obtain ⟨hne, hp, _⟩ := h
+  unfold domainToks
+  cases hv : d.vars with
+  | nil => exact absurd hv hne
+  | cons v vs =>
+    have hpv : plainName v := hp v (by rw [hv]; exact List.mem_cons_self)
+    cases v with
+    | plain n => cases vs <;> simp [varListToks, cnameToks, skipNl]
+    | compound _ _ => exact absurd hpv (by simp [plainName])
+
+theorem parseDomain_nil : parseDomain [] = .error .reject := by
+  simp [parseDomain, parseDomainVars]
+
+theorem loopD : ∀ (ds : List PDomain), (∀ d ∈ ds, WFd d) → ∀ (acc : List PDomain) (f : Nat), ds.length < f →
+    parseDomains f (.nl :: domainsToks ds) acc = .ok (acc ++ ds, [.nl])
+  | [], _, acc, f, hf => by
+    obtain ⟨f', rfl⟩ : ∃ f', f = f' + 1 := ⟨f - 1, by simp at hf; omega⟩
+    simp [parseDomains, domainsToks, needNl, skipNl, parseDomain_nil]
+  | d :: ds, h, acc, f, hf => by
+    obtain ⟨f', rfl⟩ : ∃ f', f = f' + 1 := ⟨f - 1, by simp at hf; omega⟩
+    have hd := h d List.mem_cons_self
+    have ih := loopD ds (fun e he => h e (List.mem_cons_of_mem _ he)) (acc ++ [d]) f' (by simp at hf; omega)
+    simp only [parseDomains, domainsToks, needNl]
+    rw [skipNl_domain hd, parseDomain_fmt hd]
+    simp only [ih]
+    simp
+
+/-! ### whole programs -/
+
+/-- well-formed program of the fragment: no iterations, simple names, two-sided or no domain bounds; a program
+with `where` / `define` has at least one constraint (the grammar cannot express the other case) -/
+structure WFp (m : PModel) : Prop where
+  obj : match m.objKind with
+    | .solve => m.objective = .bool true
+    | _ => WF m.objective
+  cons : ∀ c ∈ m.constraints, WFc c
+  ks : ∀ k ∈ m.constants, WF k.2
+  ds : ∀ d ∈ m.domains, WFd d
+  some_constraint : m.constraints ≠ [] ∨ (m.constants = [] ∧ m.domains = [])
+
+theorem lens_le_consts : ∀ (ks : List (String × PExp)), ks.length ≤ (constsToks ks).length
+  | [] => by simp
+  | (n, v) :: ks => by have := lens_le_consts ks; simp [constsToks]; omega
+theorem lens_le_domains : ∀ (ds : List PDomain), ds.length ≤ (domainsToks ds).length
+  | [] => by simp
+  | d :: ds => by have := lens_le_domains ds; simp [domainsToks]; omega
+
+/-- the declarations after the constraint list -/
+def declToksL (ks : List (String × PExp)) (ds : List PDomain) : List Tok :=
+  (if ks.isEmpty then [] else .word "where" :: .nl :: constsToks ks)
+    ++ (if ds.isEmpty then [] else .word "define" :: .nl :: domainsToks ds)
+
+theorem decl_stops (ks : List (String × PExp)) (ds : List PDomain) : StopsC (declToksL ks ds) := by
+  unfold declToksL
+  cases ks with
+  | nil =>
+    cases ds with
+    | nil => left; simp
+    | cons d ds => right; right; exact ⟨domainsToks (d :: ds), by simp⟩
+  | cons k ks => right; left; exact ⟨constsToks (k :: ks) ++ (if ds.isEmpty then [] else .word "define" :: .nl :: domainsToks ds), by simp⟩
+
+theorem parse_define (ds : List PDomain) (hds : ∀ d ∈ ds, WFd d) (kind : ObjKind) (obj : PExp)
+    (cs : List PConstraint) (consts : List (String × PExp)) :
+    parseDefineEnd (Tok.nl :: (if ds.isEmpty then [] else .word "define" :: .nl :: domainsToks ds)) kind obj cs consts
+      = .ok { objKind := kind, objective := obj, constraints := cs, constants := consts, domains := ds } := by
+  have hdf : lowerWord "define" = "define" := by decide
+  unfold parseDefineEnd
+  cases ds with
+  | nil => simp [needNl, skipNl]
+  | cons d ds =>
+    have hl := loopD (d :: ds) hds [] ((domainsToks (d :: ds)).length + 1 + 1) (by have := lens_le_domains (d :: ds); omega)
+    simp only [List.isEmpty_cons, Bool.false_eq_true, if_false, needNl, skipNl, hdf, beq_self_eq_true, if_true, List.length_cons, hl]
+    simp [skipNl]
+
+theorem parse_decls (ks : List (String × PExp)) (ds : List PDomain) (hks : ∀ k ∈ ks, WF k.2) (hds : ∀ d ∈ ds, WFd d)
+    (kind : ObjKind) (obj : PExp) (cs : List PConstraint) :
+    parseDecls (.nl :: declToksL ks ds) kind obj cs
+      = .ok { objKind := kind, objective := obj, constraints := cs, constants := ks, domains := ds } := by
+  have hw : lowerWord "where" = "where" := by decide
+  have hdw : (lowerWord "define" == "where") = false := by decide
+  unfold parseDecls declToksL
+  cases ks with
+  | nil =>
+    have hd := parse_define ds hds kind obj cs []
+    cases ds with
+    | nil => simpa [needNl, skipNl] using hd
+    | cons d ds =>
+      simp only [List.isEmpty_nil, List.isEmpty_cons, if_true, Bool.false_eq_true, if_false, List.nil_append, needNl, skipNl, hdw]
+      simpa using hd
+  | cons k ks =>
+    have hY : StopsK (if ds.isEmpty then [] else .word "define" :: .nl :: domainsToks ds) := by
+      cases ds with
+      | nil => left; simp
+      | cons d ds => right; exact ⟨domainsToks (d :: ds), by simp⟩
+    have hl := loopK (k :: ks) hks _ [] ((constsToks (k :: ks) ++
+        (if ds.isEmpty then [] else .word "define" :: .nl :: domainsToks ds)).length + 1 + 1) hY
+        (by have := lens_le_consts (k :: ks); simp at this ⊢; omega)
+    simp only [List.isEmpty_cons, Bool.false_eq_true, if_false, List.cons_append, needNl, skipNl, hw, beq_self_eq_true, if_true,
+      List.length_cons, hl]
+    simpa using parse_define ds hds kind obj cs (k :: ks)
+
+theorem progToks_eq (m : PModel) :
+    progToks m = objectiveToks m ++ .nl :: .st :: .nl :: (constraintsToks m.constraints ++ declToksL m.constants m.domains) := rfl
+
+/-- **Whole programs round-trip**: the tokens the program printer writes for a program of the fragment are read
+back by the program-level parser as the same program. -/
+theorem parseProgram_fmt (m : PModel) (h : WFp m) : parseProgram (progToks m) = .ok m := by
+  obtain ⟨kind, obj, cs, ks, ds⟩ := m
+  obtain ⟨hobj, hcs, hks, hds, hsome⟩ := h
+  simp only at hobj hcs hks hds hsome
+  rw [progToks_eq]
+  simp only
+  -- objective
+  have hO : ∀ T, parseObjective (skipNl (objectiveToks { objKind := kind, objective := obj, constraints := cs, constants := ks, domains := ds } ++ .nl :: T))
+      = .ok (kind, obj, .nl :: T) := by
+    intro T
+    cases kind with
+    | solve =>
+      simp only at hobj; subst hobj
+      simp [objectiveToks, skipNl, parseObjective]
+    | min =>
+      have hw : WF obj := hobj
+      simp only [objectiveToks, List.cons_append, skipNl, parseObjective, beq_self_eq_true, if_true]
+      rw [expAt_fmt hw (closed_nl T)]
+    | max =>
+      have hw : WF obj := hobj
+      have : ("max" == "min") = false := by decide
+      simp only [objectiveToks, List.cons_append, skipNl, parseObjective, this, beq_self_eq_true, if_true, Bool.false_eq_true, if_false]
+      rw [expAt_fmt hw (closed_nl T)]
+  unfold parseProgram
+  rw [hO]
+  simp only [needNl, skipNl]
+  cases cs with
+  | nil =>
+    obtain ⟨rfl, rfl⟩ : ks = [] ∧ ds = [] := by
+      rcases hsome with h | h
+      · exact absurd rfl h
+      · exact h
+    simp [constraintsToks, declToksL, skipNl, parseConstraints, constraint_stops_nil, parseDecls, parseDefineEnd, needNl]
+  | cons c cs =>
+    have hsk : skipNl (constraintsToks (c :: cs) ++ declToksL ks ds) = constraintsToks (c :: cs) ++ declToksL ks ds := by
+      simp only [constraintsToks, List.append_assoc, List.cons_append]
+      exact skipNl_constraint (hcs c List.mem_cons_self) _
+    rw [hsk, firstC hcs _ (decl_stops ks ds)]
+    exact parse_decls ks ds hks hds kind obj (c :: cs)
+
+/-! ### comparison chains -/
+
+theorem expAt_cmp (c : Cmp) (r : List Tok) : expAt (cmpTok c :: r) = .error .reject := by
+  have hf : parseFuel (cmpTok c :: r) = (6 * r.length + 13) + 3 := by simp [parseFuel]; omega
+  have hu : optUnary (cmpTok c :: r) = ([], cmpTok c :: r) := by cases c <;> simp [optUnary, unRule, ruleOfTok, Tok.opSpelling, cmpTok]
+  have hl : leaf (6 * r.length + 13 + 1) (cmpTok c :: r) = .error .reject := by cases c <;> simp [leaf, cmpTok]
+  simp only [expAt, hf, parseExp, collect, hu, hl]
+
+/-- **A comparison chain is not a constraint**: `a <= b <= c` (any comparisons) makes the program invalid. -/
+theorem comparison_chain_rejected {a b c : PExp} (ha : WF a) (hb : WF b) (hc : WF c) (c1 c2 : Cmp) :
+    parseProgram (.word "solve" :: .nl :: .st :: .nl ::
+      (fmtToks a ++ cmpTok c1 :: (fmtToks b ++ cmpTok c2 :: (fmtToks c ++ [.nl])))) = .error .reject := by
+  have hcolon : cmpTok c1 ≠ .colon := by cases c1 <;> simp [cmpTok]
+  have hname := constraintName_none (x := cmpTok c1) (tail := fmtToks b ++ cmpTok c2 :: (fmtToks c ++ [.nl]))
+    (fmtToks_cons a ha) (fmtToks_expr a) hcolon
+  have hfirst : parseConstraint (fmtToks a ++ cmpTok c1 :: (fmtToks b ++ cmpTok c2 :: (fmtToks c ++ [.nl]))) =
+      .ok ({ name := none, lhs := a, cmp := c1, rhs := b, logic := false, iterVars := [], iters := [] },
+           cmpTok c2 :: (fmtToks c ++ [.nl])) := by
+    unfold parseConstraint
+    rw [hname]
+    unfold constraintBody
+    rw [expAt_fmt ha (closed_of_term (cmpTok_term c1) _)]
+    simp only [cmpOfTok_cmpTok]
+    rw [expAt_fmt hb (closed_of_term (cmpTok_term c2) _)]
+  have hsecond : parseConstraint (cmpTok c2 :: (fmtToks c ++ [.nl])) = .error .reject := by
+    have hn : constraintName (cmpTok c2 :: (fmtToks c ++ [.nl])) = (none, cmpTok c2 :: (fmtToks c ++ [.nl])) := by
+      cases c2 <;> rfl
+    unfold parseConstraint
+    rw [hn]
+    unfold constraintBody
+    rw [expAt_cmp]
+  have hsk1 : skipNl (fmtToks a ++ cmpTok c1 :: (fmtToks b ++ cmpTok c2 :: (fmtToks c ++ [.nl]))) = _ := skipNl_fmt ha _
+  have hsk2 : skipNl (cmpTok c2 :: (fmtToks c ++ [.nl])) = cmpTok c2 :: (fmtToks c ++ [.nl]) := by cases c2 <;> rfl
+  have hneed : needNl (cmpTok c2 :: (fmtToks c ++ [.nl])) = none := by cases c2 <;> rfl
+  have hlen : ∃ k, (fmtToks a ++ cmpTok c1 :: (fmtToks b ++ cmpTok c2 :: (fmtToks c ++ [.nl]))).length + 1 = k + 2 :=
+    ⟨(fmtToks a).length + ((fmtToks b).length + ((fmtToks c).length + 1) + 1), by simp; omega⟩
+  obtain ⟨k, hk⟩ := hlen
+  have hw : ("solve" == "min") = false := by decide
+  have hw2 : ("solve" == "max") = false := by decide
+  have hcs : parseConstraints (k + 2) (fmtToks a ++ cmpTok c1 :: (fmtToks b ++ cmpTok c2 :: (fmtToks c ++ [.nl]))) [] =
+      .ok ([{ name := none, lhs := a, cmp := c1, rhs := b, logic := false, iterVars := [], iters := [] }],
+           cmpTok c2 :: (fmtToks c ++ [.nl])) := by
+    simp only [parseConstraints, hsk1, hfirst, hsk2, hsecond]
+    simp
+  have hdecl : ∀ kind obj cs, parseDecls (cmpTok c2 :: (fmtToks c ++ [.nl])) kind obj cs = .error .reject := by
+    intro kind obj cs
+    simp only [parseDecls, parseDefineEnd, hneed, hsk2]
+  unfold parseProgram
+  simp only [skipNl, parseObjective, needNl, hsk1, hw, hw2, Bool.false_eq_true, if_false, beq_self_eq_true, if_true, hk, hcs, hdecl]
+
+end Rooc.Syntax.Proofs
